@@ -3,7 +3,7 @@
 # Confirms a seeded change (suite green, demo red with the change / green without) in a scratch worktree and runs the
 # property checks against it.  Prints one summary line per step.
 set -u
-D=$1; shift
+D=$(cd "$1" && pwd); shift
 export GOFLAGS=-mod=mod GOPROXY=off GOSUMDB=off GOTOOLCHAIN=local
 S=$(mktemp -d /tmp/seedchk.XXXXXX)
 git -C /repo worktree add -q --detach "$S" HEAD || exit 2
